@@ -598,6 +598,13 @@ func c08Receiver(c *Ctx) int {
 			}
 		}
 	}
+	// a well-formed segment whose media-data box is larger than the parser's growth step (1 MiB): the bytes do arrive
+	if bigInit, e1 := readAsset("WAVE/vectors/cfhd_sets/14.985_29.97_59.94/t1/2022-10-17/1/init.mp4"); e1 == nil {
+		if bigSeg, e2 := readAsset("WAVE/vectors/cfhd_sets/14.985_29.97_59.94/t1/2022-10-17/1/180180.m4s"); e2 == nil && len(bigSeg) > 1<<20 {
+			add("receiver", "PUT", "/upload/big/V1/init.cmfv", bigInit, nil, "init")
+			add("receiver-big", "PUT", "/upload/big/V1/3.cmfv", bigSeg, nil, fmt.Sprintf("well-formed-%d-bytes", len(bigSeg)))
+		}
+	}
 	add("receiver-alive", "PUT", "/upload/mm/V300/2.cmfv", seg1, nil, "well-formed-after-all")
 
 	// run in the child
